@@ -1,6 +1,7 @@
 import Ruint.Model.Div
 import Ruint.Lemmas.Div.Dispatch
 import Ruint.Lemmas.Div.NArr
+import Ruint.Lemmas.Div.GenTie
 /-!
 # C14 — limb-slice division kernels meet their documented contracts
 
@@ -153,6 +154,55 @@ theorem reciprocal_2_spec (d : ℕ) (h1 : 2 ^ 127 ≤ d) (h2 : d < 2 ^ 128) :
   rw [reciprocal2_eq d h1 h2]
   unfold recip2Spec W
   norm_num
+
+/-! ## (G) the definitions GENERATED from the Rust source (`Ruint/Gen/WordsDiv.lean`, `tools/rs2lean.py`, every run)
+
+On the documented input ranges the source-generated `div_2x1_mg10`, `div_3x2_mg10`, `reciprocal_mg10`,
+`reciprocal_2_mg10` ARE the hand-written models above (`gen_*_eq_model`), hence meet the same contracts
+(`gen_*_spec`). An edit to a constant, shift, table entry or branch condition of these four Rust functions
+changes the generated file and these obligations are re-checked against it. -/
+
+theorem gen_reciprocal_eq_model (d : ℕ) (h1 : 2 ^ 63 ≤ d) (h2 : d < 2 ^ 64) :
+    Ruint.Gen.reciprocal_mg10 d = reciprocal d :=
+  GenTie.gen_reciprocal_eq d h1 h2
+
+theorem gen_reciprocal_2_eq_model (d : ℕ) (h1 : 2 ^ 127 ≤ d) (h2 : d < 2 ^ 128) :
+    Ruint.Gen.reciprocal_2_mg10 d = reciprocal2 d :=
+  GenTie.gen_reciprocal_2_eq d h1 h2
+
+theorem gen_div_2x1_eq_model (u d : ℕ) (h1 : 2 ^ 63 ≤ d) (h2 : d < 2 ^ 64) (hu : u / 2 ^ 64 < d) :
+    Ruint.Gen.div_2x1_mg10 u d (Ruint.Gen.reciprocal_mg10 d) = div2x1w u d (reciprocal d) := by
+  rw [GenTie.gen_reciprocal_eq d h1 h2, reciprocal_eq d h1 h2]
+  exact GenTie.gen_div_2x1_eq u d _ h2 hu (GenTie.recipSpec_facts d h1 h2).2
+
+theorem gen_div_3x2_eq_model (u21 u0 d : ℕ) (h1 : 2 ^ 127 ≤ d) (h2 : d < 2 ^ 128) (hu : u21 < d)
+    (hu0 : u0 < 2 ^ 64) :
+    Ruint.Gen.div_3x2_mg10 u21 u0 d (Ruint.Gen.reciprocal_2_mg10 d) = div3x2w u21 u0 d (reciprocal2 d) := by
+  rw [GenTie.gen_reciprocal_2_eq d h1 h2, reciprocal2_eq d h1 h2]
+  exact GenTie.gen_div_3x2_eq u21 u0 d _ h2 (GenTie.recip2Spec_facts d h1 h2).1 hu hu0
+    (GenTie.recip2Spec_facts d h1 h2).2
+
+/-- the generated `reciprocal_mg10` returns `⌊(2^128 − 1)/d⌋ − 2^64` for every normalised `d`. -/
+theorem gen_reciprocal_spec (d : ℕ) (h1 : 2 ^ 63 ≤ d) (h2 : d < 2 ^ 64) :
+    Ruint.Gen.reciprocal_mg10 d = (2 ^ 128 - 1) / d - 2 ^ 64 := by
+  rw [gen_reciprocal_eq_model d h1 h2]; exact reciprocal_spec d h1 h2
+
+/-- the generated `reciprocal_2_mg10` returns `⌊(2^192 − 1)/d⌋ − 2^64` for every normalised two-word `d`. -/
+theorem gen_reciprocal_2_spec (d : ℕ) (h1 : 2 ^ 127 ≤ d) (h2 : d < 2 ^ 128) :
+    Ruint.Gen.reciprocal_2_mg10 d = (2 ^ 192 - 1) / d - 2 ^ 64 := by
+  rw [gen_reciprocal_2_eq_model d h1 h2]; exact reciprocal_2_spec d h1 h2
+
+/-- the generated `div_2x1_mg10` (with the generated reciprocal) is exact. -/
+theorem gen_div_2x1_spec (u d : ℕ) (h1 : 2 ^ 63 ≤ d) (h2 : d < 2 ^ 64) (hu : u / 2 ^ 64 < d) :
+    Ruint.Gen.div_2x1_mg10 u d (Ruint.Gen.reciprocal_mg10 d) = (u / d, u % d) := by
+  rw [gen_div_2x1_eq_model u d h1 h2 hu]; exact div_2x1_spec u d h1 h2 hu
+
+/-- the generated `div_3x2_mg10` (with the generated two-word reciprocal) is exact. -/
+theorem gen_div_3x2_spec (u21 u0 d : ℕ) (h1 : 2 ^ 127 ≤ d) (h2 : d < 2 ^ 128) (hu : u21 < d)
+    (hu0 : u0 < 2 ^ 64) :
+    Ruint.Gen.div_3x2_mg10 u21 u0 d (Ruint.Gen.reciprocal_2_mg10 d)
+      = ((u21 * 2 ^ 64 + u0) / d, (u21 * 2 ^ 64 + u0) % d) := by
+  rw [gen_div_3x2_eq_model u21 u0 d h1 h2 hu hu0]; exact div_3x2_spec u21 u0 d h1 h2 hu hu0
 
 /-! ## non-vacuity: concrete inputs meeting each hypothesis set, evaluated through the model -/
 
